@@ -12,7 +12,7 @@ Template directives (all start with `//@`):
   //@requires [NAME]      //@ensures [NAME]      //@fn_decreases
   //@loop K [binder=it]   //@invariant [NAME]    //@invariant_except_break [NAME]
   //@loop_ensures [NAME]  //@decreases
-  //@proof loop=K at=body_start|body_end|after   //@proof at=fn_start
+  //@proof loop=K at=body_start|body_end|after   //@proof at=fn_start|before_tail
   //@subst FROM => TO   (token-exact textual substitution inside the lifted range; logged as R-subst)
   //@end
 """
@@ -23,7 +23,7 @@ import re
 import shlex
 
 from .lifter import (Source, Seg, Edits, LiftError, find_loops, rewrite_tail_continue,
-                     rewrite_string_add, rewrite_ctor_fn_value, strip_visibility, rewrite_try, rewrite_format, rewrite_method_shims, annotate_closures)
+                     rewrite_string_add, rewrite_ctor_fn_value, strip_visibility, rewrite_try, rewrite_format, rewrite_method_shims, annotate_closures, rewrite_closure_tuple_params)
 
 REPO = os.environ.get('VERIF_REPO', '/repo')
 VERIF = os.path.dirname(os.path.dirname(os.path.abspath(__file__)))
@@ -250,6 +250,15 @@ def _sig_rewrite(src, fi, ed, ret_name, new_name, log):
 
 
 _log_missing = []
+_degraded_fns = []
+
+
+def block_fn_name(blk):
+    """Name of the function a lift block is emitted as."""
+    if blk.kind in ('item', 'stub'):
+        return blk.args.get('as', blk.args.get('fn'))
+    m = re.search(r'\bfn\s+(\w+)', blk.rest or '')
+    return m.group(1) if m else blk.args.get('fn')
 
 
 def _apply_loop_contracts(src, ed, loops, blk, canary):
@@ -267,6 +276,16 @@ def _apply_loop_contracts(src, ed, loops, blk, canary):
         _log_missing.append('STRUCTURE-CHANGED ' + mismatch + ': loop contracts and loop-positioned hints of this function not applied')
         blk.loops = {}
         blk.proofs = [(m, t) for m, t in blk.proofs if 'loop' not in m]
+        blk.args['_nodecr'] = '1'
+        if not canary:
+            _degraded_fns.append(block_fn_name(blk))
+    if not canary and any(k not in blk.loops for k in range(len(loops))) and blk.args.get('uncontracted_loops') != 'ok':
+        # a loop the template has no contract for (the code gained a loop): everything after it is proved from a havocked
+        # state, so a failure in this function is an artefact unless a failing input replays (driver: weakened run)
+        ks = [k for k in range(len(loops)) if k not in blk.loops]
+        _log_missing.append(f'UNCONTRACTED-LOOP {src.rel}:{src.line_of(src.sig[loops[ks[0]].kw_idx].start)} loop(s) {ks} of `{block_fn_name(blk)}` have no loop contract in the template')
+        _degraded_fns.append(block_fn_name(blk))
+        blk.args['_nodecr'] = '1'
     for k, spec in blk.loops.items():
         l = loops[k]
         sig = src.sig
@@ -302,8 +321,10 @@ def _apply_loop_contracts(src, ed, loops, blk, canary):
                 ed.insert(sig[l.close_idx].end, '\n' + body, 'proof')
             else:
                 raise LiftError(f'template: bad proof placement {meta}')
-        elif at == 'fn_start':
+        elif at in ('fn_start', 'before_tail'):
             pass  # handled by the caller (needs the body-open position)
+        else:
+            raise LiftError(f'template: bad proof placement {meta}')
 
 
 def _apply_substs(src, ed, blk, log):
@@ -321,6 +342,9 @@ def _apply_substs(src, ed, blk, log):
         hits = 0
         while k + len(pat) <= last:
             if all(sig[k + j].text == pat[j] for j in range(len(pat))):
+                if k > 0 and sig[k - 1].text in ('::', ':') and sig[k].kind == 'id' and (sig[k - 1].text == '::' or (k > 1 and sig[k - 2].text == ':' and sig[k - 2].end == sig[k - 1].start)):
+                    k += 1   # `x::<pattern>`: the pattern is the tail of a longer path, a different item
+                    continue
                 a, b = sig[k].start, sig[k + len(pat) - 1].end
                 if any(not (b <= x or a >= y) for x, y, _, tg in ed.ed if y > x and tg == 'R-subst'):
                     k += 1   # already covered by an earlier (higher-priority) substitution
@@ -343,6 +367,7 @@ def _body_rewrites(src, ed, lo, hi, loops, blk, log):
         rewrite_method_shims(src, ed, lo, hi, blk.shim_methods, log)
     if blk.closures:
         annotate_closures(src, ed, lo, hi, blk.closures, log)
+    rewrite_closure_tuple_params(src, ed, lo, hi, set(blk.closures.keys()), log)
     if blk.args.get('format') == 'fmt1':
         rewrite_format(src, ed, lo, hi, log)
     if blk.args.get('desugar_try'):
@@ -653,9 +678,24 @@ def lift_block(blk, log, meta, canary=False):
         for m_, txt in blk.proofs:
             if m_.get('at') == 'fn_start':
                 ed.insert(sig[fi.open_idx].end, ('\n' + txt + '\n') if m_.get('_raw') else ('\nproof {\n' + txt + '\n}\n'), 'proof')
+            elif m_.get('at') == 'before_tail' and 'loop' not in m_:
+                # after the last `;` at depth 1 of the body, i.e. right before the tail expression
+                j, lastsemi = fi.open_idx + 1, None
+                while j < fi.close_idx:
+                    t = sig[j]
+                    if t.kind == 'p' and t.text in '([{':
+                        j = t.mate + 1
+                        continue
+                    if t.kind == 'p' and t.text == ';':
+                        lastsemi = j
+                    j += 1
+                if lastsemi is not None:
+                    ed.insert(sig[lastsemi].end, ('\n' + txt + '\n') if m_.get('_raw') else ('\nproof {\n' + txt + '\n}\n'), 'proof')
         body = ed.render()
         if a.get('loop_isolation') == '0':
             body = [Seg('#[verifier::loop_isolation(false)]\n', tag='R0-attr')] + body
+        if a.get('_nodecr'):
+            body = [Seg('#[verifier::exec_allows_no_decreases_clause]\n', tag='R0-attr')] + body
         impl_hdr = a.get('emit_impl', a.get('impl'))
         if a.get('free') or not impl_hdr:
             segs.extend(body)
@@ -666,6 +706,8 @@ def lift_block(blk, log, meta, canary=False):
     else:
         if a.get('loop_isolation') == '0':
             segs.append(Seg('#[verifier::loop_isolation(false)]\n', tag='R0-attr'))
+        if a.get('_nodecr'):
+            segs.append(Seg('#[verifier::exec_allows_no_decreases_clause]\n', tag='R0-attr'))
         segs.append(Seg(header.strip() + '\n', tag='R5-header'))
         segs.extend(contract)
         segs.append(Seg('{\n', tag='R5'))
@@ -716,13 +758,15 @@ def assemble(template_path, canary=False, extra_shims=None, havoc_decls=None, de
             segs.append(Seg(f'}}\n#[allow(unused_imports)] pub use {modname}::*;\n', tag='include'))
             meta['includes'].append('spec/' + val)
         else:
-            if degrade and val.kind in ('item', 'tail', 'loop', 'let'):
+            if degrade and val.kind in ('item', 'tail', 'loop', 'let') and (degrade is True or block_fn_name(val) in degrade):
                 # degraded mode: the ghost text (invariants, hints, ghost lets) no longer type-checks against the lifted code
                 # (e.g. a local changed its type): judge the function on requires/ensures alone; termination measures stay
                 for k2, sp in val.loops.items():
                     for sec in ('invariant', 'invariant_except_break', 'loop_ensures'):
                         sp.pop(sec, None)
                 val.proofs = []
+                val.args['_nodecr'] = '1'
+                _degraded_fns.append(block_fn_name(val))
             if extra_shims and val.kind in ('item', 'tail', 'loop', 'let'):
                 for k, v in extra_shims.items():
                     val.shim_methods.setdefault(k, v)
@@ -774,5 +818,7 @@ def assemble(template_path, canary=False, extra_shims=None, havoc_decls=None, de
                 table.append(entry)
     meta['lift_rewrites'] = log + ['R0 ' + x for x in _log_missing]
     meta['structure_changed'] = any('STRUCTURE-CHANGED' in x for x in _log_missing)
+    meta['degraded_fns'] = sorted(set(_degraded_fns))
     del _log_missing[:]
+    del _degraded_fns[:]
     return ''.join(out), table, meta
